@@ -1,0 +1,60 @@
+//go:build verif
+
+package openapi3filter
+
+// Contracts for response validation (C08). Comment-only; read by /verif/engine (govc).
+//
+// The verdicts of the header check, of body decoding and of the schema check are abstract
+// predicates (defined by the functions that compute them); what is proved is the control structure
+// the statement describes: which responses are not checked, which definition is selected, what an
+// undocumented status means, that every declared header is checked, and when the body is.
+
+// the Content-Type header name is computed once, in the package initialiser
+//@ global nonnil headerCT
+//@ spec respSkipped(in *ResponseValidationInput) bool :=
+//@     in.RequestValidationInput.Request.Method == "HEAD"
+//@  || in.Status == 304 || in.Status == 308 || in.Status == 307 || in.Status == 301
+//@ spec respDefs(in *ResponseValidationInput) *openapi3.Responses := in.RequestValidationInput.Route.Operation.Responses
+//@ spec respSelected(in *ResponseValidationInput) *openapi3.ResponseRef :=
+//@     statusOf(respDefs(in), in.Status) != nil ? statusOf(respDefs(in), in.Status) : rval(respDefs(in), "default")
+//@ spec strictStatus(in *ResponseValidationInput) bool := in.Options != nil && in.Options.IncludeResponseStatus
+//@ spec bodyExcluded(in *ResponseValidationInput) bool := in.Options != nil && in.Options.ExcludeResponseBody
+
+//@ spec headerOK(name string, h *openapi3.HeaderRef, in *ResponseValidationInput) bool
+//@ func validateResponseHeader
+//@   modifies *
+//@   preserves @C08 all(openapi3), ResponseValidationInput.Status, ResponseValidationInput.Options, ResponseValidationInput.RequestValidationInput, ResponseValidationInput.Header, RequestValidationInput.*, Options.*, http.Request.Method, routers.Route.*, []string
+//@   defines (result == nil) <==> headerOK(headerName, headerRef, input)
+
+//@ spec headerGet(h http.Header, k string) string
+//@ trusted func (net/http.Header).Get (h, key)
+//@   pure
+//@   ensures result == headerGet(h, key)
+
+//@ extend func ValidateResponse
+//@   assuming input != nil && input.RequestValidationInput != nil && input.RequestValidationInput.Request != nil && input.RequestValidationInput.Route != nil && input.RequestValidationInput.Route.Operation != nil
+//@   assuming 0 <= input.Status && input.Status <= 999
+//@   ensures @C08 [not-checked] old(respSkipped(input)) ==> result == nil
+//@   ensures @C08 [no-definitions] !old(respSkipped(input)) && (old(respDefs(input)) == nil || old(len(respDefs(input).m)) == 0) ==> result == nil
+//@   ensures @C08 [undocumented-status] !old(respSkipped(input)) && old(respDefs(input)) != nil && old(len(respDefs(input).m)) > 0 && old(respSelected(input)) == nil ==> ((result == nil) <==> !old(strictStatus(input)))
+//@   ensures @C08 [unresolved-definition] !old(respSkipped(input)) && old(respDefs(input)) != nil && old(len(respDefs(input).m)) > 0 && old(respSelected(input)) != nil && old(respSelected(input).Value) == nil ==> result != nil
+//@   ensures @C08 [every-header-checked] result == nil && !old(respSkipped(input)) && old(respDefs(input)) != nil && old(len(respDefs(input).m)) > 0 && old(respSelected(input)) != nil && old(respSelected(input).Value) != nil ==> forall k string :: old(has(respSelected(input).Value.Headers, k)) && k != headerCT ==> headerOK(k, old(respSelected(input).Value.Headers[k]), input)
+//@   ensures @C08 [undeclared-content-type] !old(respSkipped(input)) && old(respDefs(input)) != nil && old(len(respDefs(input).m)) > 0 && old(respSelected(input)) != nil && old(respSelected(input).Value) != nil && !old(bodyExcluded(input)) && old(len(respSelected(input).Value.Content)) > 0 && lookup(old(respSelected(input).Value.Content), headerGet(old(input.Header), headerCT)) == nil ==> result != nil
+//@   loop 0 invariant fresh(headers) && seenset() == store(keys(headers), headerCT, seenset()[headerCT])
+//@   loop 1 invariant forall k string :: keysPrefix(headers, #i)[k] ==> headerOK(k, response.Headers[k], input)
+//@   option safety-tags C10
+//@   tag C08
+
+// helpers on the way (frames only; option constructors allocate a closure and nothing else)
+//@ func getSchemaIdentifier
+//@   modifies nothing
+//@ func prependSpaceIfNeeded
+//@   modifies nothing
+//@ func (*ResponseValidationInput).SetBodyBytes
+//@   requires input != nil
+//@   modifies input.Body
+//@   ensures result == input
+//@ spec respBodyDecodes(in *ResponseValidationInput) bool
+//@ func decodeBody
+//@   modifies *
+//@   preserves all(openapi3), ResponseValidationInput.Status, ResponseValidationInput.Options, ResponseValidationInput.RequestValidationInput, ResponseValidationInput.Header, RequestValidationInput.*, Options.*, http.Request.Method, routers.Route.*
